@@ -33,6 +33,7 @@ func checkC14(c *Ctx) {
 		fmt.Sprintf("expected mg (graph) and hasError to be shared by the load queue closures (found %d)", n2))
 
 	c14EveryRequirementEnqueued(c, bl)
+	c14EveryRootLoaded(c, rm)
 	c14Par(c)
 	c14Graph(c)
 	c.expect("capture.buildList", 3)
@@ -411,4 +412,91 @@ func c14Graph(c *Ctx) {
 		return true
 	})
 	c.check("graph.sortVersions-sorts", sv.Name, sv.Body.Pos(), hasSort, "sortVersions must sort")
+}
+
+// c14EveryRootLoaded: in readModGraph every root module is handed to the load
+// queue, except under the reviewed skip conditions (local module, version
+// "none", already enqueued). Any other condition that bypasses loadQueue.Add
+// leaves a reachable module's requirements out of the graph.
+func c14EveryRootLoaded(c *Ctx, rm *Fn) {
+	g := c.graph(rm)
+	info := rm.Info()
+	head, body, rs := g.rangeLoop(func(rs *ast.RangeStmt) bool {
+		sel, ok := ast.Unparen(rs.X).(*ast.SelectorExpr)
+		return ok && sel.Sel.Name == "rootModules"
+	})
+	if !c.check("roots.loop", rm.Name, rm.Body.Pos(), head >= 0, "readModGraph must iterate rs.rootModules") {
+		return
+	}
+	_ = rs
+	add := map[int]bool{}
+	for id := range g.callNodes("internal/par.(*Queue).Add") {
+		add[id] = true
+	}
+	// conditional edges inside the loop from which the loop head (next root)
+	// or the loop exit is reachable without passing Add
+	inLoop := g.reach([]int{body}, func(id int) bool { return id == head }, nil)
+	allowed := func(cond ast.Expr) bool {
+		s := exprString(cond)
+		ok := true
+		// every atom of the skipping condition must be one of the reviewed ones
+		var atoms func(e ast.Expr)
+		atoms = func(e ast.Expr) {
+			e = ast.Unparen(e)
+			switch x := e.(type) {
+			case *ast.BinaryExpr:
+				if x.Op.String() == "||" || x.Op.String() == "&&" {
+					atoms(x.X)
+					atoms(x.Y)
+					return
+				}
+			case *ast.UnaryExpr:
+				if x.Op.String() == "!" {
+					atoms(x.X)
+					return
+				}
+			}
+			a := exprString(e)
+			switch {
+			case strings.HasSuffix(a, ".IsLocal()"), strings.HasSuffix(a, ".IsValid()"):
+			case strings.Contains(a, ".Version()") && strings.Contains(a, `"none"`):
+			case a == "dup":
+			default:
+				ok = false
+			}
+		}
+		atoms(cond)
+		_ = s
+		return ok
+	}
+	var bad []string
+	nskip := 0
+	for id := range inLoop {
+		for _, e := range g.Nodes[id].Succs {
+			if e.Cond == nil {
+				continue
+			}
+			if add[e.To] {
+				continue
+			}
+			// the edge decides to skip this root if, from its target, the
+			// iteration can end while loadQueue.Add is no longer reachable
+			within := g.reach([]int{e.To}, func(n int) bool { return n == head }, nil)
+			addReachable := false
+			for a := range add {
+				if within[a] {
+					addReachable = true
+				}
+			}
+			if !addReachable && (within[head] || e.To == head) {
+				nskip++
+				if !allowed(e.Cond) {
+					bad = append(bad, fmt.Sprintf("%s at %s", exprString(e.Cond), c.pos(g.pos(id))))
+				}
+			}
+		}
+	}
+	_ = info
+	c.check("roots.every-root-loaded", rm.Name, g.pos(head), len(bad) == 0 && len(add) > 0 && nskip > 0,
+		"every root module must be enqueued for loading unless it is local, has version \"none\" or is already enqueued; other skip conditions: "+strings.Join(uniq(bad), "; "))
 }
